@@ -1055,7 +1055,8 @@ class Fxp():
                     val = val.astype(dtype)
             elif dtype == int or dtype == 'uint' or dtype == 'int' or np.issubdtype(dtype, np.integer):
                 if self.n_frac == 0:
-                    val = raw_val
+                    # (a copy: the caller gets the values, not the object's own buffer to write into)
+                    val = raw_val.copy() if isinstance(raw_val, np.ndarray) else raw_val
                     if isinstance(val, (np.ndarray, np.generic)) and val.dtype == np.uint64 and self.n_word < 64 \
                         and not (dtype == 'uint' or (dtype != int and dtype != 'int' and np.issubdtype(dtype, np.unsignedinteger))):
                         # unsigned codes of less than 64 bits read as (signed) integers: arithmetic on them must not wrap at zero
